@@ -28,6 +28,29 @@ CHECKS = {
    text="22 From impls and 21 TryFrom impls x 10 value tags (232 obligations) are summarised and compared with the conversion rules; every cast in these bodies must be lossless by type. Finite domain enumerated completely.",
    note=TB_MIR + "std's i128::from / T::try_from<i128> are exact; Result-collect stops at the first error."),
 }
+CHECKS.update({
+ "C09": dict(cat="other", ref="DESIGN.md §3.9", technique="path enumeration of the coroutine bodies of evaluate_value / evaluate (MIR), compared with the specified path set",
+   text="All paths of RuleSet::evaluate_value (rule loop unrolled twice) and RuleSet::evaluate are enumerated with their ordered calls: one Outcome{value: stored per-rule result, rule: that rule} pushed per rule in iteration order of a plain forward iteration, no early exit, Ok(all outcomes); evaluate fails only through serialisation and otherwise delegates unchanged.",
+   note=TB_MIR + "the per-rule evaluation is opaque here (its isolation rests on C11/C12); Vec::push / slice iteration order (std)."),
+ "C10": dict(cat="other", ref="DESIGN.md §3.10", technique="MIR lookup summaries (which key on which container, what on absence) compared with the lookup rules",
+   text="Summaries of the identifier lookup (x10 input tags), symbol and function table lookups, the 20 cells of the index step and the evaluator's rows for Reference/Symbol/Function/Index: the key is the node's own unmodified name/index, the container the addressed one, absence gives None for steps and a named error for top-level names.",
+   note=TB_MIR + "BTreeMap::get / <[T]>::get compare keys and positions exactly (std)."),
+ "C11": dict(cat="other", ref="DESIGN.md §3.11", technique="path + dataflow rules on UserFunctions::call's coroutine MIR and on the route of the cache object",
+   text="All 6 paths of UserFunctions::call are enumerated: lookup by name, bypass when not cacheable, same key for get/insert built from name and the whole argument only, hit makes no call, only successes stored, errors wrapped with the name; the cache object is created once per evaluation call and threaded downwards unchanged. Injectivity of the Debug rendering used as key is NOT decided.",
+   note=TB_MIR + "BTreeMap semantics (std); key injectivity is an assumption."),
+ "C12": dict(cat="other", ref="DESIGN.md §3.12", technique="effect / purity analysis: statics, field types, unsafe, signatures, deny-listed callees on the evaluation call graph, suspension points",
+   text="Structural premises of determinism and schedule independence: no mutable or interior-mutable static/field, no thread-local, no hand-written unsafe or Future impl, shared-reference entry points, no clock/random/hash-order/thread/env callee reachable from evaluation, every suspension point is an .await. Determinism is claimed given deterministic user functions.",
+   note="rustc type facts (Freeze, field types) and resolved call graph; Rust's aliasing guarantees; the deny-list is a list (all reachable callees are enumerated in C01's evidence)."),
+ "C15": dict(cat="other", ref="DESIGN.md §3.15", technique="must-pass-through and who-may-write rules over MIR summaries of the builder and the function table",
+   text="Insertion into the rule list / function table is reachable only through the admission tests (duplicate, reserved word, identifier shape) with the inserted item's own name; refusals name the offender; wrappers delegate; the tables are written nowhere else; the identifier predicate requires first-char AND rest-chars tests; symbols use overwrite semantics.",
+   note=TB_MIR + "UnicodeXID classes; Iterator::any/all, BTreeMap insert/append semantics (std)."),
+ "C18": dict(cat="proof", ref="DESIGN.md §3.18", technique="compile-only witness crate: auto-trait assertions decided by rustc (+ compile-fail twins)",
+   text="15 Send/Sync assertions over the public types, the three evaluation futures and a spawnable shape are type-checked against the current tree (cargo check, nothing executed); the compiler decides them for every instantiation. The run-time clause (same outcomes concurrently) rests on C12's structure and is not re-claimed.",
+   note="rustc's trait solver; the witness source engines/typewit; negative twins (thorough) prove the helpers reject Rc / !Send futures."),
+ "C19": dict(cat="other", ref="DESIGN.md §3.19", technique="recursion-cycle (SCC) analysis of the monomorphic instance call graph incl. derived impls, fmt fn pointers, vtables and drop glue",
+   text="Every call cycle whose depth follows the nesting of an Expr/Value tree must contain a depth test dominating the recursive calls; the generated LR parser must be non-recursive. Decides the cause of stack exhaustion (unbounded input-driven recursion), not the depth at which a given stack dies. 12 unguarded cycles are known findings.",
+   note="rustc instance resolution and upstream MIR; std-internal bounded recursion (sort, fmt) is excluded by rule."),
+})
 NA_REASON = "check not built yet (build in progress, see DESIGN.md §5)"
 
 checks = []
@@ -53,6 +76,7 @@ m = {
            "baseline_off_cmd": "cd /repo && cargo test --workspace --no-fail-fast --offline", "source_commits": [], "add_only": True},
  "engines": [
    {"name": "mirfacts", "path": "engines/mirfacts", "serves_properties": sorted(CHECKS), "kind_free_text": "rustc_private driver (nightly) exporting pre-borrowck MIR, resolved callees, types, impls, statics and a monomorphic call graph as JSON; injected as RUSTC_WORKSPACE_WRAPPER under cargo +nightly check"},
+   {"name": "typewit", "path": "engines/typewit", "serves_properties": ["C18"], "kind_free_text": "compile-only witness crate (auto-trait assertions + negative/positive twins), type-checked with cargo check against the analysed tree"},
    {"name": "rules", "path": "rules", "serves_properties": sorted(CHECKS), "kind_free_text": "python3 (stdlib only) rule layer: tag-symbolic abstract interpreter over the exported MIR (tss.py), normaliser, hazard classifier, per-property rules and spec tables"},
  ],
  "checks": checks,
